@@ -94,7 +94,7 @@ CLAIMED.update(
             "`only in cache`; execution results are reused only when neither changed nor missing, stored before the flag is cleared, and the "
             "suite runner invalidates the test case's own cache; every writer of a chromosome's tests (suite methods, crossover, mutation "
             "operators) reaches changed=True; results of change-reporting operations are never discarded; only enumerated functions clear "
-            "the flag. Interleavings on shared/cloned objects are not decided.",
+            "the flag; variation operators install another suite's test case chromosomes only as clones (no object shared between two suites). Other interleavings on shared objects are not decided.",
             "Trusts the CFG builder; the family of change-reporting operations is computed from `-> bool` annotations of TestFactory / TestCaseMutation.",
             "DESIGN.md §3 C12",
         ),
